@@ -244,6 +244,10 @@ def m_set_extension(it, argv, text):
     r = argv[0]
     bs = it.load(r.addr).b
     ext = it.as_str(argv[1]).b
+    for b in ext:
+        if _is(it, b, SLASH):
+            # std: "extension cannot contain path separators"
+            raise RustPanic("set_extension: extension cannot contain path separators")
     rng = file_name_range(it, bs)
     if rng is None:
         return False
@@ -287,9 +291,6 @@ def m_path_starts_with(it, argv, text):
     return m_strip_prefix_path(it, argv, text).idx == 0
 
 
-@emodel('Path::components')
-def m_components(it, argv, text):
-    raise Unsupported("Path::components")
 
 
 # ----------------------------------------------------------------------------- Env
